@@ -48,7 +48,9 @@ def make_case(rng, i):
     if rng.random() < 0.6:
         add(["#CO", "#H2O", "H2O"], "ice")
     if rng.random() < 0.4:
-        add(rng.choice([["GRAIN0", "GRAIN-"], ["GRAIN0", "GRAIN-", "GRAIN+"], ["GRAIN1", "GRAIN1-", "GRAIN2", "GRAIN2-"]]), "grain_groups")
+        # grain groups have to match the surface-species groups ('#X' is group 0), otherwise naunet (rightly) refuses
+        opts = [["GRAIN0", "GRAIN-"], ["GRAIN0", "GRAIN-", "GRAIN+"]] + ([] if "ice" in feats else [["GRAIN1", "GRAIN1-", "GRAIN2", "GRAIN2-"]])
+        add(rng.choice(opts), "grain_groups")
     if rng.random() < 0.35:
         add(["H2*"], "excited_star")
     if rng.random() < 0.35:
